@@ -511,6 +511,20 @@ def check(repo):
             else:
                 r2.ok(desc)
 
+    # premise of the client create-service exception below ("the retry runs under a fresh sid"): the sid is derived from the config
+    # *after* the random salt was added.  Otherwise the retry computes the same sid and meets the directory its first attempt left.
+    from . import c11 as _c11
+    tmp9 = Rule("R11.9", "")
+    _c11._check_create_refuses_existing(repo, tmp9)
+    for f in tmp9.findings:
+        if "salt then sid" in f.construct:
+            f.rule = "R13.5"
+            f.message = ("the retry of an interrupted create-service no longer runs under a fresh sid (%s): after a crash between the mkdir and the state file, creating "
+                         "the service again from the same configuration hits the left-over directory (FileExistsError) for ever" % f.message)
+            r5.findings.append(f)
+            r5.obligations += 1
+    if not any("salt then sid" in f.construct for f in tmp9.findings):
+        r5.ok({"premise": "client create-service retries under a fresh sid (salt before sid)"})
     # R13.5 crash prefixes
     n_prefix = 0
     for side, side_name, handlers, store_fn in ((server, "server", srv_handlers, srv_store), (client, "client", cli_handlers, cli_store_factory())):
